@@ -1375,31 +1375,31 @@ def map_recipes(tier):
 
 NT_TREE = "non-trivial = tree with >= 2 leaves and nesting depth >= 2"
 SUBS = [
-    Sub(name="vector_operators", check=check_operators, strategy=operator_recipes, quick=1600, thorough=60000,
+    Sub(name="vector_operators", check=check_operators, strategy=operator_recipes, quick=1280, thorough=60000,
         shards=16, jax=True,
         rule="jft.Vector unary/binary operators (+ - * / ** // % divmod | ^ & << >> comparisons, neg pos abs invert "
              "conj real imag), forward and reflected, other operand = Vector / Python / NumPy / 0-d NumPy / 0-d JAX "
              "scalar, vs the NumPy ufunc on the flat arrays (values, leaf dtypes, structure); " + NT_TREE +
              " (and for Vector-Vector operations two different operands)"),
-    Sub(name="products_norms_reductions", check=check_reductions, strategy=reduction_recipes, quick=1600,
+    Sub(name="products_norms_reductions", check=check_reductions, strategy=reduction_recipes, quick=1280,
         thorough=60000, shards=16, jax=True,
         rule="vdot (conjugate-linear in the first argument), dot / @ / Vector.dot (no conjugate), norm for ord in "
              "{default,0,1,2,3,1/2,inf,-inf,-1}, sum/min/max/any/all (functions and Vector methods) vs NumPy on the "
              "flat array; non-trivial: products = >= 2 leaves with a complex leaf; norm = >= 2 leaves with non-zero "
              "entries, one of them with >= 2; reductions = " + NT_TREE),
-    Sub(name="structure_helpers", check=check_structure, strategy=structure_recipes, quick=1200, thorough=40000,
+    Sub(name="structure_helpers", check=check_structure, strategy=structure_recipes, quick=960, thorough=40000,
         shards=16, jax=True,
         rule="size/shape/len/tree_shape/has_arithmetics/container protocol/copy, zeros_like/ones_like (arrays and "
              "ShapeWithDtype leaves, 32/64-bit dtypes), result_type vs dtype of the NumPy concatenation, conj, "
              "where(cond, x, y) with tree/scalar operands vs numpy.where on flat arrays; " + NT_TREE +
              " (where: the condition selects from both sides; result_type/zeros_like: >= 2 different dtypes)"),
-    Sub(name="forest_helpers", check=check_forest, strategy=forest_recipes, quick=800, thorough=30000, shards=16,
+    Sub(name="forest_helpers", check=check_forest, strategy=forest_recipes, quick=640, thorough=30000, shards=16,
         jax=True,
         rule="stack == numpy.stack per leaf and unstack(stack(xs, axis), axis) == xs for generated axes, mean / "
              "mean_and_std vs numpy mean/var over the stacked flat arrays, unite (documented key-union semantics), "
              "random_like vs jax.random.normal on the split keys, map_forest / map_forest_mean vs a Python loop; "
              "non-trivial = >= 2 leaves and >= 2 samples (stack: axis != 0; unite: common and one-sided keys)"),
-    Sub(name="custom_maps", check=check_maps, strategy=map_recipes, quick=640, thorough=20000, shards=16, jax=True,
+    Sub(name="custom_maps", check=check_maps, strategy=map_recipes, quick=480, thorough=20000, shards=16, jax=True,
         rule="smap(f, in_axes, out_axes, unroll) and lmap(f, in_axes, out_axes) == jax.vmap(f, in_axes, out_axes) "
              "== explicit slice/stack loop, for generated jnp programs; non-trivial = some in- or out-axis is "
              "neither 0 nor None and the program has >= 1 operation"),
